@@ -224,6 +224,7 @@ func ZZC11Docs() {
 	}
 	d := mk()
 	n := v.Param("ops", 2)
+	cursorMoved := false
 	for i := 0; i < n; i++ {
 		switch v.Choose(0, 2) {
 		case 0:
@@ -232,6 +233,7 @@ func ZZC11Docs() {
 			d.Len()
 		case 2:
 			d.NextLexeme()
+			cursorMoved = true
 		}
 	}
 	f := mk()
@@ -241,9 +243,11 @@ func ZZC11Docs() {
 	l1, e1 := d.Len()
 	l2, e2 := mk().Len()
 	v.Assert(l1 == l2 && (e1 == nil) == (e2 == nil), "C11/document-len-depends-on-history")
-	// Check and Len rewind the document: the lexeme stream read afterwards is that of a fresh document
+	// Check and Len leave the cursor where it was: when the history did not read lexemes itself,
+	// the stream read afterwards is that of a fresh document (NextLexeme is a cursor, so after
+	// explicit reads the continuation is not comparable with a fresh object)
 	g := mk()
-	for i := 0; i < 6; i++ {
+	for i := 0; i < 6 && !cursorMoved; i++ {
 		x1, err1 := d.NextLexeme()
 		x2, err2 := g.NextLexeme()
 		ok1, c1, p1 := errSig(err1)
